@@ -375,6 +375,15 @@ def run_lines(exe, lines, env_extra=None, timeout=None, stall=45, max_crashes=8,
         if len(complete) < len(chunk):
             err = se.decode(errors='replace')
             kind = 'timeout' if rc == -999 else classify_crash(err, rc)
+            if kind == 'timeout':
+                # silent for `stall` seconds: the case hangs - or the machine was busy.  Run the one case alone, with twice the
+                # patience, before calling it a hang; if it answers, that answer stands
+                rc2, so2, _se2 = _run_proc(exe, (lines[i] + '\n').encode(), env, 300, stall * 2)
+                alone = so2.decode(errors='replace').split('\n')[:-1]
+                if alone:
+                    outs.append(alone[0])
+                    i += 1
+                    continue
             outs.append('CRASH ' + kind)
             crashes.append({'index': i, 'line': lines[i], 'rc': rc, 'kind': kind, 'stderr_tail': err[-3000:]})
             i += 1
